@@ -1,0 +1,29 @@
+//go:build verif
+
+package vm
+
+// VerifAsyncHook, when set, is called at named yield points of the promise, await and
+// thread-pool code with the promise the point is about, the task (promise executed by a
+// pool worker) involved and the VM thread, any of which may be nil.
+// Used by the external verification harness only: it records an event log and perturbs
+// the schedule (sleeps, gates) at these points. Set it before any thread pool is started.
+//
+// Points: await:enter, await:locked, await:checked-unsettled, await:settled-unlocked,
+// await:suspended, cont:registered, await:unlocked, continuation:resume,
+// awaitsync:before, awaitsync:after, resolve:enter, resolve:locked, resolve:published,
+// resolve:enqueue-continuation, resolve:enqueued, resolve:unlocked,
+// addtask:before, addtask:after, worker:dequeue, worker:done.
+var VerifAsyncHook func(point string, promise *Promise, task *Promise, thread *Thread)
+
+func verifAsync(point string, promise *Promise, task *Promise, thread *Thread) {
+	if h := VerifAsyncHook; h != nil {
+		h(point, promise, task, thread)
+	}
+}
+
+// VerifPromiseState reports without synchronisation whether the promise looks settled and how
+// many continuations are registered (harness diagnostics only, call it under the promise's own
+// critical section or at quiescence).
+func VerifPromiseState(p *Promise) (settled bool, continuations int) {
+	return p.ThreadPool == nil, len(p.continuations)
+}
